@@ -368,6 +368,27 @@ def interned_construction(rep: Report, prog: Program, resolver: Resolver, summ: 
                       "silently keeps name None", fi.where(node))
 
 
+def memo_over_registries(rep: Report, prog: Program, resolver: Resolver, rid: str) -> None:
+    """No memoised function (transitively, context-pruned) reads a name/symbol registry: its answers
+    would survive a later declaration."""
+    from .c08 import NAMING, memo_functions
+    n6 = 0
+    for m in memo_functions(prog):
+        sub = Reach(resolver, [m])
+        regs = set()
+        for g in sub.reached:
+            for loc, node in reads_in(prog, resolver, g):
+                if loc.split(".")[-1] in NAMING and sub.feasible_node(g, node):
+                    regs.add(loc)
+        if regs:
+            n6 += 1
+            fi = prog.functions[m]
+            rep.fail(rid, m, f"{m} is memoised over {sorted(regs)}: after a later declaration, lookups by that name or symbol "
+                     "keep returning the earlier answer", fi.where())
+    if n6 == 0:
+        rep.ok(rid, "package", note="no memoised function reads a name/symbol registry")
+
+
 def run(rep: Report) -> None:
     prog = Program()
     resolver = Resolver(prog)
@@ -458,22 +479,7 @@ def run(rep: Report) -> None:
     if not ev.dim_renames:
         rep.ok("R19.9", "shipped-dimensions", note=f"{len(ev.dim_by_name)} named dimensions, none declared under two names")
     # R19.6 memo over registries (shared with C08)
-    from .c08 import NAMING, memo_functions
-    n6 = 0
-    for m in memo_functions(prog):
-        sub = Reach(resolver, [m])
-        regs = set()
-        for g in sub.reached:
-            for loc, node in reads_in(prog, resolver, g):
-                if loc.split(".")[-1] in NAMING and sub.feasible_node(g, node):
-                    regs.add(loc)
-        if regs:
-            n6 += 1
-            fi = prog.functions[m]
-            rep.fail("R19.6", m, f"{m} is memoised over {sorted(regs)}: after a later declaration, lookups by that name or symbol "
-                     "keep returning the earlier answer", fi.where())
-    if n6 == 0:
-        rep.ok("R19.6", "package", note="no memoised function reads a name/symbol registry")
+    memo_over_registries(rep, prog, resolver, "R19.6")
     rep.analysed.update({"entry_points": ENTRIES, "declared_prefixes": len(ev.prefix_decls), "unit_name_symbol_declarations": len(ev.name_decls),
                          "entry_modules_explored": entries})
     rep.not_decided.append("the intern table _known after a failing definition keeps an anonymous, fully built instance (R19.7); "
